@@ -94,6 +94,7 @@ func (x *Exec) mapUpdate(n *node, m, k, v Value, i *ssa.MapUpdate) {
 	kt := x.mapKeyTerm(k, mt.Key(), nil)
 	hasIn := x.objGet(st, name+".has", Arr(ks, BoolS), ms.T)
 	was := x.VC.Def("map.was", Select(hasIn, kt))
+	x.VC.Assume(n.guard, Implies(was, BVCmp("bvsge", x.objGet(st, name+".len", bv64, ms.T), BVLit(1, 64))), "map-len-has")
 	x.objSet(st, name+".has", ms.T, Store(hasIn, kt, True))
 	nl := BVBin("bvadd", x.objGet(st, name+".len", bv64, ms.T), Ite(was, BVLit(0, 64), BVLit(1, 64)))
 	x.objSet(st, name+".len", ms.T, nl)
@@ -145,6 +146,8 @@ func (x *Exec) mapDelete(n *node, t types.Type, m *Term, k Value, pos token.Pos)
 	nonnil := Not(Eq(m, IntLit(0)))
 	hasIn := x.objGet(st, name+".has", Arr(ks, BoolS), m)
 	was := x.VC.Def("map.was", And(nonnil, Select(hasIn, kt)))
+	// a present key means the map is not empty
+	x.VC.Assume(n.guard, Implies(was, BVCmp("bvsge", x.objGet(st, name+".len", bv64, m), BVLit(1, 64))), "map-len-has")
 	x.objSet(st, name+".has", m, Store(hasIn, kt, False))
 	nl := BVBin("bvsub", x.objGet(st, name+".len", bv64, m), Ite(was, BVLit(1, 64), BVLit(0, 64)))
 	x.objSet(st, name+".len", m, nl)
@@ -183,7 +186,9 @@ func (x *Exec) rangeInit(n *node, v Value, i *ssa.Range) Value {
 		pk := App(posf, bv64, kk)
 		x.VC.AssumeForall([]*Term{kk}, n.guard, Implies(x.mapHasQuiet(it.st0, mt, ms.T, kk), And(BVCmp("bvult", pk, it.n), Eq(Select(it.keys, pk), kk))), "range-enum-complete")
 		x.VC.Assume(n.guard, And(BVCmp("bvsle", BVLit(0, 64), it.n), BVCmp("bvsle", it.n, lim47)), "range-n")
-		return Scalar{T: IntLit(0), Ty: nil}.withIter(it)
+		st.Vars["range.j:"+i.Name()] = Scalar{T: BVLit(0, 64), Ty: tyInt}
+		st.Vars["range.iter"] = iterBox{Scalar: Scalar{T: IntLit(0)}, it: it, name: i.Name()}
+		return iterBox{Scalar: Scalar{T: IntLit(0)}, it: it, name: i.Name()}
 	}
 	x.VC.Warnf("range over %s not supported in %s", i.X.Type(), x.TopName)
 	return UnknownV{Ty: i.Type()}
@@ -192,7 +197,8 @@ func (x *Exec) rangeInit(n *node, v Value, i *ssa.Range) Value {
 // iterBox carries a Go-side iterator through the environment.
 type iterBox struct {
 	Scalar
-	it *rangeIter
+	it   *rangeIter
+	name string
 }
 
 func (s Scalar) withIter(it *rangeIter) Value { return iterBox{Scalar: s, it: it} }
@@ -234,7 +240,7 @@ func (x *Exec) rangeNext(n *node, itv Value, i *ssa.Next) Value {
 	// values loaded: name them
 	val = x.nameValue(val, i.Name()+".v")
 	x.assumeTypeInv(val, n.guard, st)
-	st.Vars[jkey] = Scalar{T: x.VC.Def("range.j", BVBin("bvadd", j, BVLit(1, 64))), Ty: tyInt}
+	st.Vars[jkey] = Scalar{T: x.VC.Def("range.j", Ite(more, BVBin("bvadd", j, BVLit(1, 64)), j)), Ty: tyInt}
 	st.Vars["range.cur:"+i.Iter.Name()] = Scalar{T: j, Ty: tyInt}
 	return TupleV{Scalar{T: more, Ty: tyBool}, kv, val}
 }
